@@ -9,7 +9,10 @@ use std::io;
 use std::io::{Read, Seek, SeekFrom};
 use std::ops::Deref;
 use std::sync::Arc;
+#[cfg(not(jubako_verif_loom))]
 use std::sync::Mutex;
+#[cfg(jubako_verif_loom)]
+use crate::bases::verif_sync::Mutex;
 
 pub struct FileSource {
     source: Mutex<io::BufReader<File>>,
